@@ -196,7 +196,11 @@ def run(tier):
         for vname, vcoq in VERSIONS:
             doc = with_components(docs, vname)
             if vname == "OPEN_API_3_0":
-                got = jsonschema.Draft201909Validator(ref_exclusive_py(to_resolvable(oas30_to_2020(doc), vname))).is_valid(real)
+                body, comps = split_defs(doc)
+                mapped = dict(oas30_to_2020(body))
+                if comps:         # the components stay at the root of the document, whatever wraps the (nullable) schema
+                    mapped["components"] = {"schemas": {n: oas30_to_2020(x) for n, x in comps.items()}}
+                got = jsonschema.Draft201909Validator(mapped).is_valid(real)
                 if got != ref and not (drops(docs["DRAFT_2020_12"]) and got and not ref):
                     R.violation(f"OPEN_API_3_0 schema (documented mapping) {'accepts' if got else 'rejects'} data that the "
                                 f"2020-12 schema {'accepts' if ref else 'rejects'}",
